@@ -38,6 +38,7 @@ var actionNames = []string{"set", "read", "fail", "noop", "set-empty", "fail-onc
 type monitor struct {
 	inside  atomic.Int64
 	overlap atomic.Int64
+	derived atomic.Int64 // stores made through a derived context that has already ended
 }
 
 // executor: Activate = set (the id is the value to store), Destroy = read (the response id is what
@@ -54,7 +55,16 @@ func executor(m *monitor) *kmipserver.BatchExecutor {
 	ex.Route(kmip.OperationActivate, kmipserver.HandleFunc(func(ctx context.Context, req *payloads.ActivateRequestPayload) (*payloads.ActivateResponsePayload, error) {
 		enter()
 		defer leave()
-		kmipserver.SetIdPlaceholder(ctx, req.UniqueIdentifier)
+		if core.Hash64(req.UniqueIdentifier)%2 == 1 {
+			// a handler that gives its backend call a context of its own, releases it, and then stores the
+			// identifier through that (derived, now ended) context: the request it belongs to is still being processed
+			opCtx, release := context.WithTimeout(ctx, time.Minute)
+			release()
+			kmipserver.SetIdPlaceholder(opCtx, req.UniqueIdentifier)
+			m.derived.Add(1)
+		} else {
+			kmipserver.SetIdPlaceholder(ctx, req.UniqueIdentifier)
+		}
 		return &payloads.ActivateResponsePayload{UniqueIdentifier: req.UniqueIdentifier}, nil
 	}))
 	ex.Route(kmip.OperationDestroy, kmipserver.HandleFunc(func(ctx context.Context, req *payloads.DestroyRequestPayload) (*payloads.DestroyResponsePayload, error) {
@@ -377,6 +387,7 @@ func direct(c *core.Ctx, r *core.Rand, i int) {
 	close(start)
 	wg.Wait()
 	c.Count("handler_overlaps", m.overlap.Load())
+	c.Count("stores_through_ended_derived_context", m.derived.Load())
 	c.Count("concurrent_requesters", int64(N))
 }
 
@@ -425,6 +436,7 @@ func wire(c *core.Ctx, r *core.Rand, i int) {
 	srv.Shutdown()
 	<-done
 	c.Count("handler_overlaps", m.overlap.Load())
+	c.Count("stores_through_ended_derived_context", m.derived.Load())
 }
 
 func Spec() *core.Spec {
@@ -436,7 +448,7 @@ func Spec() *core.Spec {
 		Rule: "seeded programs of 1-8 batch items over {set (value = request id + item index), read, fail, noop}; 2-64 goroutines issuing requests through BatchExecutor.HandleRequest at once (handlers yield so that items of different requests interleave; in half of the rounds a retry middleware runs the chain twice for a quarter of the requests) and 1-16 real server connections each sending a sequence of 6 requests; " +
 			"every read is checked against a per-request sequential register model starting empty; any value carrying another request's id is a leak, identified exactly; race reports whose stacks are the placeholder accessors are violations. a fifth action storing the empty value; reads through IdPlaceholder and through GetIdOrPlaceholder; items resolving an explicit identifier in between; blank-padded values; items whose handler fails once under an item-retry middleware; handlers sending a refused request of their own; Batch Order Option absent/true/false; a batch-splitting message middleware (chunks through separate continuation calls); distinct = distinct programs",
 		Assumptions: []string{"after a failed item both the previous value and the empty value are accepted (the statement is silent on clearing)"},
-		Required:    []string{"requests.direct", "requests.wire", "reads", "handler_overlaps", "connections", "retried_requests", "split_requests", "empty_value_stored_over_a_value", "item_retry_requests"},
+		Required:    []string{"requests.direct", "requests.wire", "reads", "handler_overlaps", "connections", "retried_requests", "split_requests", "empty_value_stored_over_a_value", "item_retry_requests", "stores_through_ended_derived_context"},
 		RaceVerdict: func(r core.RaceReport) (string, bool) {
 			for _, st := range r.Frames {
 				for _, f := range st {
